@@ -4,8 +4,9 @@
 (* the specification keeps, per agent and per checkpoint, WHICH decisions count in its matrix         *)
 (* (`hist`: the event numbers of the decisions since the matrix was last initialised, followed        *)
 (* through clones and checkpoints) and the size of the output layer.  The protocol is the one of      *)
-(* Bandit.tla (Create / Decide / Learn / Mutate / Clone / Save / LoadNew / LoadInto with the          *)
-(* outcomes carry | reinit).                                                                          *)
+(* Bandit.tla (Create / Decide / Learn / Test / Mutate / Clone / Save / LoadNew / LoadInto with the   *)
+(* outcomes carry | reinit; every agent has its own lambda `lam` = <<n, d>>, carried only while it    *)
+(* is unchanged).                                                                                     *)
 (* The driver evaluates, after every operation and for every live agent, in float64                   *)
 (*     res = "ok"  iff  max | S (lambda I + SUM_{d in hist} g_d g_d^T) - I | <= tolerance             *)
 (* for the hist it reports; TLC checks that this hist is the specification's (so the residual was     *)
@@ -31,28 +32,31 @@ Outs == {"reinit", "carry"}
 TInit == /\ tid \in 1..Len(Traces) /\ l = 1
          /\ ag = [a \in Slots |-> Nil] /\ fs = [f \in Files |-> Nil] /\ act = [op |-> "init"]
 
-Fresh(k) == [layer |-> k, dim |-> k, hist |-> <<>>]
-Outcome(r, k, out) == IF out = "reinit" THEN Fresh(k) ELSE [r EXCEPT !.layer = k]
-Allowed(r, k, out) == out = "reinit" \/ (out = "carry" /\ r.dim = k)
+Fresh(k, lm) == [layer |-> k, dim |-> k, hist |-> <<>>, lam |-> lm]
+Outcome(r, k, lm, out) == IF out = "reinit" THEN Fresh(k, lm) ELSE [r EXCEPT !.layer = k, !.lam = lm]
+Allowed(r, k, lm, out) == out = "reinit" \/ (out = "carry" /\ r.dim = k /\ r.lam = lm)
 
-Create(a, k) == /\ ag[a] = Nil /\ ag' = [ag EXCEPT ![a] = Fresh(k)] /\ UNCHANGED fs
+Create(a, k, lm) == /\ ag[a] = Nil /\ ag' = [ag EXCEPT ![a] = Fresh(k, lm)] /\ UNCHANGED fs
                 /\ act' = [op |-> "create", a |-> a, out |-> "init"]
 Decide(a) == /\ Live(ag[a]) /\ ag' = [ag EXCEPT ![a].hist = Append(@, l)] /\ UNCHANGED fs
              /\ act' = [op |-> "decide", a |-> a, out |-> "update"]
 Learn(a) == Live(ag[a]) /\ UNCHANGED <<ag, fs>> /\ act' = [op |-> "learn", a |-> a, out |-> "carry"]
-Mutate(a, k, out) == /\ Live(ag[a]) /\ Allowed(ag[a], k, out)
-                     /\ ag' = [ag EXCEPT ![a] = Outcome(ag[a], k, out)] /\ UNCHANGED fs
-                     /\ act' = [op |-> "mutate", a |-> a, out |-> out]
-Clone(a, c, k, out) == /\ Live(ag[a]) /\ c # a /\ Allowed(ag[a], k, out)
-                       /\ ag' = [ag EXCEPT ![c] = Outcome(ag[a], k, out)] /\ UNCHANGED fs
+Test(a) == Live(ag[a]) /\ UNCHANGED <<ag, fs>> /\ act' = [op |-> "test", a |-> a, out |-> "carry"]
+Mutate(a, kind, k, lm, out) ==
+  /\ Live(ag[a]) /\ Allowed(ag[a], k, lm, out)
+  /\ (kind # "hp" => lm = ag[a].lam)
+  /\ ag' = [ag EXCEPT ![a] = Outcome(ag[a], k, lm, out)] /\ UNCHANGED fs
+  /\ act' = [op |-> "mutate", a |-> a, out |-> out]
+Clone(a, c, k, out) == /\ Live(ag[a]) /\ c # a /\ Allowed(ag[a], k, ag[a].lam, out)
+                       /\ ag' = [ag EXCEPT ![c] = Outcome(ag[a], k, ag[a].lam, out)] /\ UNCHANGED fs
                        /\ act' = [op |-> "clone", a |-> a, c |-> c, out |-> out]
 Save(a, f) == /\ Live(ag[a]) /\ fs' = [fs EXCEPT ![f] = ag[a]] /\ UNCHANGED ag
               /\ act' = [op |-> "save", a |-> a, out |-> "carry"]
-LoadNew(f, c, k, out) == /\ Live(fs[f]) /\ Allowed(fs[f], k, out)
-                         /\ ag' = [ag EXCEPT ![c] = Outcome(fs[f], k, out)] /\ UNCHANGED fs
+LoadNew(f, c, k, out) == /\ Live(fs[f]) /\ Allowed(fs[f], k, fs[f].lam, out)
+                         /\ ag' = [ag EXCEPT ![c] = Outcome(fs[f], k, fs[f].lam, out)] /\ UNCHANGED fs
                          /\ act' = [op |-> "loadnew", c |-> c, out |-> out]
-LoadInto(f, a, k, out) == /\ Live(fs[f]) /\ Live(ag[a]) /\ Allowed(fs[f], k, out)
-                          /\ ag' = [ag EXCEPT ![a] = Outcome(fs[f], k, out)] /\ UNCHANGED fs
+LoadInto(f, a, k, out) == /\ Live(fs[f]) /\ Live(ag[a]) /\ Allowed(fs[f], k, fs[f].lam, out)
+                          /\ ag' = [ag EXCEPT ![a] = Outcome(fs[f], k, fs[f].lam, out)] /\ UNCHANGED fs
                           /\ act' = [op |-> "loadinto", a |-> a, out |-> out]
 
 Target == IF "c" \in DOMAIN act' THEN act'.c ELSE act'.a
@@ -63,6 +67,7 @@ Post ==
        ELSE /\ Check("slot holds an agent", ~p.nil)
             /\ Check("size of the confidence matrix = number of parameters of the output layer", p.sq /\ p.dim = p.layer)
             /\ Check("output layer has the size the operation produced", p.layer = ag'[s].layer)
+            /\ Check("the agent's lambda is the one the operation produced (constructor's / source's / unchanged)", p.lam = ag'[s].lam)
             /\ (s = Target /\ act'.out \in {"init", "reinit"}) =>
                  Check("freshly initialised confidence matrix = (1/lambda) I", p.isinit)
             /\ (s = Target /\ act'.out = "carry") =>
@@ -73,8 +78,9 @@ Post ==
                ELSE Check("confidence matrix of an agent that did not take part is unchanged", p.res = "ok" /\ p.same)
 
 ObsLayer(s) == Ev.post[s].layer
+ObsLam(s)   == Ev.post[s].lam
 NoExc == Check("returns without raising", Ev.exc = "")
-TCreate == Ev.op = "create" /\ NoExc /\ Create(Ev.a, ObsLayer(Ev.a)) /\ Post
+TCreate == Ev.op = "create" /\ NoExc /\ Create(Ev.a, ObsLayer(Ev.a), Ev.lam0) /\ Post
 TDecide ==
   /\ Ev.op = "decide" /\ NoExc
   /\ Check("chosen arm is one of the arms", Ev.arm \in 0..(Ev.narms - 1))
@@ -82,14 +88,17 @@ TDecide ==
   /\ Check("exploration bonus g^T S g >= 0 for every arm", Ev.bonus_ok)
   /\ Decide(Ev.a) /\ Post
 TLearn    == Ev.op = "learn" /\ Learn(Ev.a) /\ Post
-TMutate   == Ev.op = "mutate" /\ NoExc /\ \E out \in Outs : Mutate(Ev.a, ObsLayer(Ev.a), out) /\ Post
+TTest     == Ev.op = "test" /\ Test(Ev.a) /\ Post
+TMutate   == /\ Ev.op = "mutate" /\ NoExc
+             /\ Check("only a hyper-parameter mutation changes lambda", Ev.kind = "hp" \/ ObsLam(Ev.a) = ag[Ev.a].lam)
+             /\ \E out \in Outs : Mutate(Ev.a, Ev.kind, ObsLayer(Ev.a), ObsLam(Ev.a), out) /\ Post
 TClone    == Ev.op = "clone" /\ NoExc /\ \E out \in Outs : Clone(Ev.a, Ev.c, ObsLayer(Ev.c), out) /\ Post
 TSave     == Ev.op = "save" /\ Save(Ev.a, Ev.f) /\ Post
 TLoadNew  == Ev.op = "loadnew" /\ NoExc /\ \E out \in Outs : LoadNew(Ev.f, Ev.c, ObsLayer(Ev.c), out) /\ Post
 TLoadInto == Ev.op = "loadinto" /\ NoExc /\ \E out \in Outs : LoadInto(Ev.f, Ev.a, ObsLayer(Ev.a), out) /\ Post
 
 TAccept == /\ l = Len(T.ev) + 1 /\ PrintT(<<"ACCEPT", tid>>) /\ l' = l + 1 /\ UNCHANGED <<vars, tid>>
-TNext == \/ (l <= Len(T.ev) /\ (TCreate \/ TDecide \/ TLearn \/ TMutate \/ TClone \/ TSave \/ TLoadNew \/ TLoadInto)
+TNext == \/ (l <= Len(T.ev) /\ (TCreate \/ TDecide \/ TLearn \/ TTest \/ TMutate \/ TClone \/ TSave \/ TLoadNew \/ TLoadInto)
              /\ l' = l + 1 /\ UNCHANGED tid)
          \/ TAccept
 TSpec == TInit /\ [][TNext]_tvars
